@@ -437,7 +437,9 @@ class Prop:
             return ctr[0]
 
         def item(bad_rate=0.1):
-            return "bad" if r.random() < bad_rate else fresh()
+            # (an invalid item is a float, not a string: strings inside sets would make
+            # validation order depend on PYTHONHASHSEED)
+            return 0.5 if r.random() < bad_rate else fresh()
         ops = []
         for _ in range(nops):
             o = r.randrange(nobj)
